@@ -2,6 +2,7 @@
   C08 — A connection that ends leaves nothing behind; its last will fires once (broker model).
 -/
 import Emitter.Lemmas.Broker
+import Emitter.Lemmas.BrokerHistory
 namespace Emitter.C08
 open Emitter Emitter.Trie Emitter.Security Emitter.Broker
 
@@ -45,5 +46,49 @@ theorem presence_leave (b : B) (c : Conn) (ssid : Path) (channel : Bytes) (h1 : 
 /-- the invariant the above rest on holds after every history -/
 theorem sync_step (auth : Auth) (b : B) (name : String) (r : Req) (h : Sync b) :
     Sync (step auth b name r).1 := Broker.sync_step auth b name r h
+
+/-- History level (specification: `Emitter/Spec/Subscriptions.lean`): once a connection that
+was accepted has ended, then for the REST of any well-formed history — whatever anybody,
+including the closed connection, requests — it is not open, the set `A` of acknowledged
+subscriptions holds no pair of it (ordinary, presence-change and link-created alike), its record
+is dead and empty, and the subscription index has no entry under its key. -/
+theorem close_history_clean (auth : Auth) (b₀ : B) (h0 : Pristine b₀) (h₁ h₂ : List Spec.Ev) (name : String)
+    (hwf : Spec.wellFormed (h₁ ++ .req name .close :: h₂) = true) (hacc : name ∈ Spec.acceptNames h₁) :
+    let b := run auth b₀ (h₁ ++ .req name .close :: h₂)
+    let S := Spec.run auth (Spec.init b₀) (h₁ ++ .req name .close :: h₂)
+    name ∉ S.alive ∧ (∀ σ, (name, σ) ∉ S.A) ∧
+    ∀ x ∈ b.conns, x.name = name → x.alive = false ∧ x.counters = [] ∧ ∀ σ, (σ, x.key) ∉ b.trie.root.abs :=
+  Broker.close_history_clean auth b₀ h0 h₁ h₂ name hwf hacc
+
+/-! non-vacuity: c1 subscribes `k/a/` twice, watches presence on `k/a/`, links `k/b/` with
+auto-subscribe; c2 subscribes `k/+/`; c1 disconnects; afterwards c1 tries to subscribe again
+and c2 subscribes `k/a/` (toy authorizer: the key `k` grants everything but `extend`) -/
+def demoAuth : Auth := fun banned ch _ =>
+  if banned.contains ch.key then none else if ch.key == [107] then some ⟨7, 0x3f⟩ else none
+
+def demo₁ : List Spec.Ev :=
+  [.accept "c1" [1], .accept "c2" [2],
+   .req "c1" (.subscribe 1 [107, 47, 97, 47] 0),
+   .req "c1" (.subscribe 2 [107, 47, 97, 47] 0),
+   .req "c1" (.presence 3 [107] [97, 47] false (some true)),
+   .req "c1" (.link 4 [98] [107] [98, 47] true),
+   .req "c2" (.subscribe 5 [107, 47, 43, 47] 0)]
+
+def demo₂ : List Spec.Ev :=
+  [.req "c1" (.subscribe 6 [107, 47, 97, 47] 0), .req "c2" (.subscribe 7 [107, 47, 97, 47] 0)]
+
+set_option maxRecDepth 8000
+
+/-- before the disconnect c1 holds three pairs … -/
+example : ((Spec.run demoAuth (Spec.init {}) demo₁).A.filter (·.1 == "c1")).length = 3 := by decide +kernel
+/-- … the theorem applies … -/
+example : "c1" ∉ (Spec.run demoAuth (Spec.init {}) (demo₁ ++ .req "c1" .close :: demo₂)).alive ∧
+    ∀ σ, ("c1", σ) ∉ (Spec.run demoAuth (Spec.init {}) (demo₁ ++ .req "c1" .close :: demo₂)).A :=
+  let h := close_history_clean demoAuth {} ⟨rfl, rfl⟩ demo₁ demo₂ "c1" (by decide +kernel) (by decide +kernel)
+  ⟨h.1, h.2.1⟩
+/-- … and what is left are c2's two subscriptions -/
+example : (Spec.run demoAuth (Spec.init {}) (demo₁ ++ .req "c1" .close :: demo₂)).A =
+    [("c2", [7, 1815237614]), ("c2", [7, 3238259379])] := by decide +kernel
+example : (Spec.run demoAuth (Spec.init {}) (demo₁ ++ .req "c1" .close :: demo₂)).alive = ["c2"] := by decide +kernel
 
 end Emitter.C08
